@@ -17,6 +17,7 @@ that does not set a negative `minimum_length`. `No101`: a handler that answers `
 hijacks the connection; no HTTP body follows, so the clause about bodies does not speak about it.
 -/
 import CaddyModel.C15.Lemmas
+import CaddyModel.C15.Witness
 
 namespace CaddyModel.C15
 
@@ -120,6 +121,36 @@ theorem first_offered_among_accepted (offered prefer : List Bytes) (req : Req) (
     exact ⟨as, bs, h1, fun n hn => by simpa using h2 n hn⟩
   · cases h
 
+/-- **the chosen coding is a most preferred one**: among the offered codings the client accepts, none has a
+    higher q-value, nor the same q-value and a higher server preference (`prefer`), than the chosen one. -/
+theorem chosen_is_most_preferred (offered prefer : List Bytes) (req : Req) (c : Bytes)
+    (h : chooseEncoding offered prefer req = some c) :
+    ∃ pc ∈ acceptedPrefs req.acceptEnc req.wsKey prefer, pc.name = c ∧
+      ∀ p ∈ acceptedPrefs req.acceptEnc req.wsKey prefer, p.name ∈ offered → PrefGe pc p := by
+  unfold chooseEncoding at h
+  split at h
+  · unfold acceptedEncodings at h
+    split at h
+    · simp at h
+    · obtain ⟨as, bs, h1, h2⟩ := (List.find?_eq_some_iff_append.mp h).2
+      obtain ⟨l1, l2, e1, e2, e3⟩ := List.map_eq_append_iff.mp h1
+      obtain ⟨pc, l3, e4, e5, _⟩ := List.map_eq_cons_iff.mp e3
+      subst e4
+      have hs := goSort_sorted (acceptedPrefs req.acceptEnc req.wsKey prefer)
+      rw [e1, List.pairwise_append, List.pairwise_cons] at hs
+      have hpc : pc ∈ acceptedPrefs req.acceptEnc req.wsKey prefer := by
+        rw [← mem_goSort, e1]; simp
+      refine ⟨pc, hpc, e5, fun p hp hoff => ?_⟩
+      rw [← mem_goSort, e1, List.mem_append, List.mem_cons] at hp
+      rcases hp with hp | rfl | hp
+      · have : p.name ∈ as := by rw [← e2]; exact List.mem_map_of_mem hp
+        have := h2 _ this
+        simp at this
+        exact absurd hoff this
+      · exact prefGe_refl _
+      · exact hs.2.1.1 p hp
+  · cases h
+
 /-- **encoded only if eligible, and then with the right headers.** If the response went through the encoder,
     the header the client received is exactly `init`'s edit of a handler header `h0` that was not already
     encoded, carried no `no-transform`, satisfied the response matcher, and met the minimum length. -/
@@ -153,6 +184,22 @@ theorem etag_when_encoded (name : Bytes) (h0 : Hdr) :
       if !(hGet h0 kEtag).isEmpty && !hasPrefix vWeakPrefix (hGet h0 kEtag) then [adjustEtag name (hGet h0 kEtag)]
       else hValues h0 kEtag :=
   initHdr_etag name h0
+
+/-- **headers are edited only when the encoder is opened.** One call on the writer changes the values of a
+    header `k` (other than `Vary`, which a 304 gets, and a sniffed `Content-Type`) exactly as the handler's own
+    edit does — unless this very call, starting from an uncommitted writer, opened the encoder (`init`). In
+    particular `Content-Encoding`, `Content-Length` and `ETag` are never touched on a response that is not
+    encoded. Holds for every configuration. -/
+theorem header_untouched_unless_init (cfg : Cfg α) (st : St α) (op : Op α) (k : Bytes)
+    (h1 : k ≠ kVary) (h2 : k ≠ kCT) :
+    hValues (step cfg st op).hdr k = hValues (hdrEffect op st.hdr) k ∨
+      (st.wroteHeader = false ∧ (step cfg st op).encOpen = true) :=
+  hdr_step cfg st op h1 h2
+
+/-- the deferred `Close` leaves the header map alone unless it opens (and at once closes) the encoder -/
+theorem close_untouched_unless_init (cfg : Cfg α) (st : St α) :
+    (rwClose cfg st).hdr = st.hdr ∨ (st.wroteHeader = false ∧ (rwClose cfg st).log.head? = some Ev.ec) :=
+  hdr_rwClose cfg st
 
 /-- **1xx is forwarded at once**, with the header map as it is, and decides nothing. -/
 theorem informational_forwarded (st : St α) (s : Nat) (h1 : is1xx s = true) :
@@ -292,6 +339,11 @@ example : clientBody (some vZstd) (runWrapped exCfg vZstd false [.hset kCT exTex
 example : chooseEncoding [vGzip] [] ⟨false, [98, 114, 44, 103, 122, 105, 112], false, [], []⟩ = some vGzip := by decide
 example : chooseEncoding [vGzip] [] ⟨false, [103, 122, 105, 112, 59, 113, 61, 48], false, [], []⟩ = none := by decide
 
+-- `chosen_is_most_preferred`: gzip;q=0.5, zstd — zstd is preferred although gzip comes first in `prefer`
+set_option maxRecDepth 8000 in
+example : chooseEncoding [vGzip, vZstd] [vGzip, vZstd] exReq = some vZstd ∧
+    acceptedPrefs exAE false [vGzip, vZstd] = [⟨vGzip, 500, 2⟩, ⟨vZstd, 1000, 1⟩] := by decide
+
 -- `status_preserved_partial`: its hypotheses are met by exOps' shape (pre = 4 ops, s = 200, body = 4 ops)
 example : ∀ op ∈ ([.hset kCT exTextHtml, .writeHeader 103] : List (Op Nat)), Preliminary op := by
   intro op h
@@ -303,6 +355,12 @@ example : ∀ op ∈ ([.hset kCT exTextHtml, .writeHeader 103] : List (Op Nat)),
 -- `etag_recognised` / `etag_distinct`: "abc" ↦ "abc-zstd" ↦ "abc"
 example : StrongTag exTag ∧ adjustEtag vZstd exTag = [34, 97, 98, 99, 45, 122, 115, 116, 100, 34] :=
   ⟨⟨by decide, [34, 97, 98, 99], rfl⟩, by decide⟩
+
+-- `header_untouched_unless_init`: both alternatives occur — a small first write leaves Content-Length alone,
+-- a big one opens the encoder from an uncommitted writer
+example : hValues (step exCfg (run exCfg (St.init vZstd false) [.hset kCT exTextHtml, .hset kCL [57, 57]]) (.write 10)).hdr kCL = [[57, 57]] ∧
+    (step exCfg (run exCfg (St.init vZstd false) [.hset kCT exTextHtml, .hset kCL [57, 57]]) (.write 600)).encOpen = true := by
+  decide
 
 -- `informational_forwarded`: 103 goes out at once with the header as it is
 example : ((rwWriteHeader (St.init vGzip false : St Nat) 103).log, (rwWriteHeader (St.init vGzip false : St Nat) 103).wroteHeader)
